@@ -206,6 +206,15 @@ func decide(o *Obligation, tmpdir string, timeoutMs int, confirm bool) {
 		hasQuant = true
 	}
 	_ = hasQuant
+	// an operand that vanished while a formula was put together (two blanks after an operator, a blank before the closing
+	// parenthesis) must never be read by a solver as a shorter, weaker formula
+	for _, f := range append([]string{o.Goal}, o.Hyps...) {
+		if malformedTerm.MatchString(f) {
+			o.Status = "failed-nomodel"
+			o.RawOut = "malformed SMT term (empty operand) in: " + f
+			return
+		}
+	}
 	if err := os.WriteFile(file, []byte(o.smt(true)), 0o644); err != nil {
 		o.Status = "failed-nomodel"
 		o.RawOut = err.Error()
@@ -455,9 +464,20 @@ func modelSummary(m map[string]string, max int) []string {
 
 // ---- term construction helpers ----
 
+var malformedTerm = regexp.MustCompile(`\([^\s()|"]+  |[^\s(] \)|GZV_EMPTY_TERM`)
+
 func app(op string, args ...string) string {
 	if len(args) == 0 {
 		return op
+	}
+	for i, a := range args {
+		if a == "" {
+			// a value without a term (tuple, unsupported expression) used as an operand: never let it vanish from the
+			// formula (z3 reads a unary (>= x) as true) - the undeclared symbol makes every solver reject the query
+			cp := append([]string(nil), args...)
+			cp[i] = "GZV_EMPTY_TERM"
+			args = cp
+		}
 	}
 	return "(" + op + " " + strings.Join(args, " ") + ")"
 }
